@@ -1260,7 +1260,7 @@ package ircserver
 //@   requires locks-held: i.sessionsMu.writerSem == 1
 // the three mutexes of a server are three objects (NewIRCServer allocates them separately)
 //@ func NewIRCServer
-//@   ensures locks-distinct: result.sessionsMu != result.ConfigMu && result.ConfigMu != result.lastProcessedMu && result.sessionsMu != result.lastProcessedMu
+//@   ensures locks-distinct: result.sessionsMu != result.ConfigMu && result.ConfigMu != result.lastProcessedMu && result.sessionsMu != result.lastProcessedMu && toplevel(result.sessionsMu) && toplevel(result.ConfigMu) && toplevel(result.lastProcessedMu)
 //@ func IRCServer.Unmarshal
 //@   requires locks-distinct: i.sessionsMu != i.ConfigMu && i.ConfigMu != i.lastProcessedMu && i.sessionsMu != i.lastProcessedMu
 //@ func IRCServer.ProcessMessage
